@@ -246,6 +246,7 @@ def main():
             return 3
 
     # ------------------------------------------------------------ verdicts
+    bounded_unlisted = [v for v in (bres["violations"] if bres else []) if known_match(known, prop, "bounded", v["clause"]) is None]
     if bres:
         for v in bres["violations"]:
             ident = "%s::%s" % (v["part"], v["clause"])
@@ -266,7 +267,7 @@ def main():
         nrep[0] += 1
         path = write_replay(prop, nrep[0], dict(property=prop, kind="structural", obligation=name, detail=detail,
                                                 verdict="structural obligation fails on the current source"))
-        suffix = "" if (bres and bres["violations"]) else " no-failing-input-found"
+        suffix = "" if bounded_unlisted else " no-failing-input-found"
         violations.append(("structural obligation %s fails: %s" % (name, detail), path, suffix))
     for r, o in failed_obs:
         k = known_match(known, prop, "obligation", o["name"])
@@ -279,7 +280,7 @@ def main():
                                                     obligation=o["name"], solver=o["backend"], verdict="sat (counter-model)",
                                                     model=o["detail"], smt2_tail=o["smt2"], line=o["line"]))
             # a concrete failing input from the harness takes precedence; otherwise report the obligation itself
-            suffix = "" if (bres and bres["violations"]) else " no-failing-input-found"
+            suffix = "" if bounded_unlisted else " no-failing-input-found"
             violations.append(("obligation %s refuted by %s" % (o["name"], o["backend"]), path, suffix))
         else:
             # not a counter-model.  An obligation that was discharged on the unchanged tree and is not discharged now, in a
@@ -294,7 +295,7 @@ def main():
                                                         verdict="discharged on the unchanged tree (baseline %s), not discharged on this one: %s" % (
                                                             baseline.get("repo_commit", "?")[:10], o["status"]),
                                                         changed_source=chg, solver_output=o["detail"], smt2_tail=o["smt2"], line=o["line"]))
-                suffix = "" if (bres and bres["violations"]) else " no-failing-input-found"
+                suffix = "" if bounded_unlisted else " no-failing-input-found"
                 violations.append(("obligation %s was discharged on the unchanged tree and is not after the change to %s (%s: %s)" % (
                     o["name"], ", ".join(chg), o["status"], o["detail"][:120]), path, suffix))
             else:
